@@ -484,7 +484,6 @@ func TestStracePoints(t *testing.T) {
 		sizes = []int{0, 1, 2, 100, 32769, 70000}
 		pres = append(pres, "indexonly")
 		chunks = []int{0, 1000}
-		syscalls = append(syscalls, "newfstatat", "fcntl", "read")
 	}
 	for _, pre := range pres {
 		for _, size := range sizes {
@@ -511,6 +510,14 @@ func TestStracePoints(t *testing.T) {
 	for _, pre := range []string{"fresh", "oldver", "indexonly", "partial"} {
 		for _, sc := range []string{"write", "ftruncate", "close"} {
 			ts = append(ts, triple{pre, 100, 0, sc, true})
+		}
+	}
+	if ev.Thorough() {
+		// also the calls that do not change the directory (every stat of Open, every read of the existing data file)
+		for _, pre := range []string{"fresh", "same", "partial"} {
+			for _, sc := range []string{"newfstatat", "fcntl", "read", "mkdirat"} {
+				ts = append(ts, triple{pre, 100, 0, sc, false})
+			}
 		}
 	}
 	maxN := ev.EnvInt("C05_STRACE_MAXN", 40, 400)
